@@ -29,18 +29,19 @@ const (
 )
 
 type access struct {
-	pos   token.Pos
-	fn    string
-	body  *wbody
-	path  string
-	elem  bool
-	own   string // index space when the first index is owned by the executing worker
-	rw    byte
-	guard string
-	eq    string
-	kind  akind
-	how   string
-	cls   string
+	pos    token.Pos
+	fn     string
+	body   *wbody
+	path   string
+	elem   bool
+	own    string // index space when the first index is owned by the executing worker
+	rw     byte
+	guard  string
+	guardR bool // the guard is held in read mode (RWMutex.RLock)
+	eq     string
+	kind   akind
+	how    string
+	cls    string
 }
 
 type wbody struct {
@@ -94,6 +95,7 @@ type visitor struct {
 	loopBound  map[types.Object]string
 	taint      map[types.Object]bool
 	guard      string
+	guardR     bool
 	eq         string
 	seenLits   map[*ast.FuncLit]bool
 	allowGo    bool
@@ -170,6 +172,9 @@ func syncObject(t types.Type) string {
 	switch n {
 	case "sync.Pool", "sync.Map", "sync.Once", queryPkg + ".SyncMap":
 		return n[strings.LastIndex(n, "/")+1:]
+	}
+	if strings.HasPrefix(n, "sync/atomic.") {
+		return n[len("sync/"):]
 	}
 	// struct types embedding *SyncMap (ViewMap, …): look through one level of embedding
 	for {
@@ -284,7 +289,7 @@ func (v *visitor) visitIndices(e ast.Expr) {
 
 func (v *visitor) add(pos token.Pos, path string, elem bool, own string, rw byte, k akind, how string) {
 	v.r.acc = append(v.r.acc, &access{pos: pos, fn: v.fn, body: v.b, path: path, elem: elem, own: own, rw: rw,
-		guard: v.guard, eq: v.eq, kind: k, how: how})
+		guard: v.guard, guardR: v.guardR, eq: v.eq, kind: k, how: how})
 }
 
 func (v *visitor) classifyIdx(e ast.Expr) string {
@@ -352,12 +357,12 @@ func (v *visitor) funcLit(fl *ast.FuncLit, resetCtx bool) {
 	}
 	v.seenLits[fl] = true
 	v.localExt = append(v.localExt, [2]token.Pos{fl.Pos(), fl.End()})
-	g, q := v.guard, v.eq
+	g, gr, q := v.guard, v.guardR, v.eq
 	if resetCtx {
-		v.guard, v.eq = "", ""
+		v.guard, v.guardR, v.eq = "", false, ""
 	}
 	v.stmts(fl.Body.List)
-	v.guard, v.eq = g, q
+	v.guard, v.guardR, v.eq = g, gr, q
 }
 
 func (v *visitor) specialRecv(x ast.Expr, k akind, how string) {
@@ -611,18 +616,18 @@ func (v *visitor) lockCall(s ast.Stmt) (mutex string, op string, ok bool) {
 }
 
 func (v *visitor) stmts(list []ast.Stmt) {
-	saved := v.guard
+	saved, savedR := v.guard, v.guardR
 	for _, s := range list {
 		if m, op, ok := v.lockCall(s); ok {
 			switch op {
-			case "Lock":
+			case "Lock", "RLock":
 				v.expr(s.(*ast.ExprStmt).X.(*ast.CallExpr).Fun.(*ast.SelectorExpr).X)
-				v.guard = m
-			case "Unlock":
+				v.guard, v.guardR = m, op == "RLock"
+			case "Unlock", "RUnlock":
 				if v.guard == m {
-					v.guard = ""
+					v.guard, v.guardR = "", false
 				}
-			case "defer Unlock":
+			case "defer Unlock", "defer RUnlock":
 				// the lock is held until the function returns: the guard stays for the rest of the list
 			default:
 				v.fail(s, "lock operation "+op+" has no rule")
@@ -631,7 +636,7 @@ func (v *visitor) stmts(list []ast.Stmt) {
 		}
 		v.stmt(s)
 	}
-	v.guard = saved
+	v.guard, v.guardR = saved, savedR
 }
 
 func (v *visitor) assignTarget(lhs ast.Expr, readToo bool) {
@@ -1082,7 +1087,7 @@ func classify(r *region) {
 				byOwn = true
 			case a.eq != "" && a.eq == b.eq && a.body == b.body:
 				byEq = true
-			case a.guard != "" && a.guard == b.guard:
+			case a.guard != "" && a.guard == b.guard && !(a.guardR && b.guardR):
 				byGuard = true
 			default:
 				// a conflicting pair: blame the side that lacks the protection the other side has
